@@ -71,6 +71,7 @@ TEMPLATES = {
     "ff_adjacent": [("scf_1", "FF")],
     "gfg_terminal_gaps": [("scf_1", "GFG")],
     "three_scaffolds": [("scf_1", "FG"), ("scf_2", "F"), ("scf_3", "GF")],
+    "fggf_adjacent_gaps": [("scf_1", "FGGF")],      # two gap rows in a row (TPF/AGP input with consecutive gaps, append_scaffold onto a terminal gap)
 }
 THOROUGH = {
     "fgfgf": [("scf_1", "FGFGF")],
